@@ -63,6 +63,38 @@ func numberToStringRadix(value Value, radix int) string {
 	return strconv.FormatInt(int64(float), radix)
 }
 
+// int64ToString is ToString of the Number value of a Go integer (ECMA-262 9.8.1):
+// beyond 2^53 that is the nearest double, not the integer itself.
+func int64ToString(value int64) string {
+	if value < -(1<<53) || value > 1<<53 {
+		return floatToString(float64(value), 64)
+	}
+	return strconv.FormatInt(value, 10)
+}
+
+func uint64ToString(value uint64) string {
+	if value > 1<<53 {
+		return floatToString(float64(value), 64)
+	}
+	return strconv.FormatUint(value, 10)
+}
+
+// goString is string for the callers of the Go API (Value.String, Value.ToString):
+// a Go integer is returned with its own digits.
+func (v Value) goString() string {
+	switch value := v.value.(type) {
+	case int:
+		return strconv.FormatInt(int64(value), 10)
+	case int64:
+		return strconv.FormatInt(value, 10)
+	case uint:
+		return strconv.FormatUint(uint64(value), 10)
+	case uint64:
+		return strconv.FormatUint(value, 10)
+	}
+	return v.string()
+}
+
 func (v Value) string() string {
 	if v.kind == valueString {
 		switch value := v.value.(type) {
@@ -82,7 +114,7 @@ func (v Value) string() string {
 	case bool:
 		return strconv.FormatBool(value)
 	case int:
-		return strconv.FormatInt(int64(value), 10)
+		return int64ToString(int64(value))
 	case int8:
 		return strconv.FormatInt(int64(value), 10)
 	case int16:
@@ -90,9 +122,9 @@ func (v Value) string() string {
 	case int32:
 		return strconv.FormatInt(int64(value), 10)
 	case int64:
-		return strconv.FormatInt(value, 10)
+		return int64ToString(value)
 	case uint:
-		return strconv.FormatUint(uint64(value), 10)
+		return uint64ToString(uint64(value))
 	case uint8:
 		return strconv.FormatUint(uint64(value), 10)
 	case uint16:
@@ -100,7 +132,7 @@ func (v Value) string() string {
 	case uint32:
 		return strconv.FormatUint(uint64(value), 10)
 	case uint64:
-		return strconv.FormatUint(value, 10)
+		return uint64ToString(value)
 	case float32:
 		if value == 0 {
 			return "0" // Take care not to return -0
